@@ -8,7 +8,8 @@ HOSTS = ['a', 'A.TEST', 'a.', 'ａ.test', 'ß.test', 'xn--bcher-kva.test', '0x7f
          '１２７.1', '127.0.0.1', '2130706433', '017700000001', '0177.0.0.1', '1.2.3', '[::1]',
          '[0:0:0:0:0:0:0:1]', '[::ffff:1.2.3.4]', '[::FFFF:102:304]', '0x7F.0.0.1',
          'bücher.test', 'BÜCHER.test', '1.2.3.4.', '192.168.0.1', '0300.0250.0.1',
-         '0X7f.0.0.1', '0XC00002EB', '0X7F.0X0.0x0.0X1']
+         '0X7f.0.0.1', '0XC00002EB', '0X7F.0X0.0x0.0X1', '[FE80::1%ETH0]', '[fe80::1%é]',
+         '[fe80::1%a\u3000b]']
 PORTS = ['', ':80', ':0080', ':8080', ':0', ':65535', ':443', ':21', ':']
 PATHS = ['', '/', '/a/./b', '/a/../b', '/../a', '//a///b', '/a/..', '/%2e/', '/%2E%2e/',
          '/%aF', '/%Af%fA', '/%zz%', '/ a', '/é', '/a;b=c', '/a/b/../../..', '/./', '/a/.',
@@ -16,6 +17,9 @@ PATHS = ['', '/', '/a/./b', '/a/../b', '/../a', '//a///b', '/a/..', '/%2e/', '/%
 QUERIES = ['', '?', '?a=b', '?a=%7e', '?a b', '?é', '?a#', '?a=b&a=c&&=', '?%aF=%fa', '?a+b']
 FRAGMENTS = ['', '#f', '#%41 é']
 ENCODINGS = ['utf-8', 'latin-1', 'shift_jis']
+# encodings that are not supersets of ASCII ("any source encoding"): a document may be
+# UTF-16; used on the reduced product and the call-history alphabet
+ODD_ENCODINGS = ['utf-16', 'utf-7', 'cp037', 'utf-32-be']
 
 SIGMA = ['a', 'A', '.', '/', ':', '%', '2', 'e', 'E', '@', '[', ']', '?', '#', ' ', '\\', '0',
          'x', '０', 'ß', 'X']
